@@ -4,7 +4,8 @@ from ..core import parse_sx, sx
 
 class C02(Prop):
     ID = "C02"
-    THEOREMS = ["C02_accept_iff", "C02_sections_are_chunks", "C02_item_count", "C02_roundtrip", "C02_section_codec", "C02_autosql_verbatim", "C02_autosql_nul_refused", "C02_zero_zero_refuted", "C02_file_roundtrip", "C02_runs_are_input", "C02_written_file_roundtrip"]
+    THEOREMS = ["C02_accept_iff", "C02_sections_are_chunks", "C02_item_count", "C02_roundtrip", "C02_section_codec", "C02_autosql_verbatim", "C02_autosql_nul_refused", "C02_zero_zero_refuted", "C02_file_roundtrip", "C02_runs_are_input", "C02_written_file_roundtrip",
+                "C02_model_uncompressed", "C02_written_file_roundtrip_compressed", "C02_written_file_buf_size_compressed", "C02_ubuf_fits_of_bounds"]
     RULE = ("bigBed cases: 1-5 chromosomes (names whose first-appearance, lexicographic and id order differ), per chromosome a "
             "start-sorted entry layout from the grammar disjoint/overlapping/nested/identical/zero-length/very-long-then-short/"
             "largest-end-not-last (block and every index level)/ends past the chromosome end/mixed, rest fields of 0..20 "
